@@ -340,7 +340,7 @@ func c05Gen(c *Ctx) {
 }
 
 func init() {
-	Register(&Prop{ID: "C05", Num: 5, NumOf: wideNum(5), SpecMode: "rel", Gen: c05Gen, Impl: c05Impl,
+	Register(&Prop{ID: "C05", Pure: true, Num: 5, NumOf: wideNum(5), SpecMode: "rel", Gen: c05Gen, Impl: c05Impl,
 		Shrink:   trieShrink(false),
 		Describe: func(in []int64) string {
 			if len(in) > 3 && (in[0] == -5 || in[0] == -6) {
